@@ -8,6 +8,7 @@
  *   -DNN -DRSZ -DASZ -DBSZ -DRSL -DASL -DBSL  (strides of big operands are forced to NN)
  *   -DAVX=0|1   CPU dispatch flag seen by the real fill_virtual_table
  *   -DALIAS= 0 none, 1 res==a, 2 res==b, 3 res==a==b   (same pointer, same stride)
+ *            4 res==a with the strides as given (different): well defined when a has at most one limb - only limb 0 is shared
  *   -DPMODE= 0 concrete -DP=..., 1 fully symbolic int64 (odd for automorphism), 2 residue -DPR=.. + 2N*q, q symbolic
  */
 #include "mod.h"
@@ -135,7 +136,7 @@ void h_vecop(void) {
   const uint64_t r_words = vf_extent(RSZ, rsl, NN);
   uint64_t a_words = HAS_A ? vf_extent(ASZ, asl, NN) : 0;
   uint64_t b_words = HAS_B ? vf_extent(BSZ, bsl, NN) : 0;
-#if ALIAS == 1
+#if ALIAS == 1 || ALIAS == 4
   a_words = umax(a_words, r_words);
 #elif ALIAS == 2
   b_words = umax(b_words, r_words);
@@ -150,7 +151,7 @@ void h_vecop(void) {
 #else
   int64_t* b = HAS_B ? (int64_t*)vf_alloc_words(b_words) : 0;
 #endif
-#if ALIAS == 1 || ALIAS == 3
+#if ALIAS == 1 || ALIAS == 3 || ALIAS == 4
   int64_t* res = a;
   const uint64_t res_words = a_words;
 #elif ALIAS == 2
@@ -250,7 +251,7 @@ void h_vecop(void) {
 #if ALIAS == 0 || ALIAS == 2
   for (uint64_t w = 0; w < a_words; ++w) VF_ASSERT(a[w] == a0[w], "source a bit-for-bit unchanged");
 #endif
-#if ALIAS == 0 || ALIAS == 1
+#if ALIAS == 0 || ALIAS == 1 || ALIAS == 4
   for (uint64_t w = 0; w < b_words; ++w) VF_ASSERT(b[w] == b0[w], "source b bit-for-bit unchanged");
 #endif
   VF_REACH();
